@@ -8,6 +8,8 @@ def run(rep, kf, tier, seed):
     run_models(rep, kf, tier, seed, "C14", config={"literal_enums": True}, tag="+literal_enums")
     # parser side: member table of an enum with ANY number of values (inductive contract)
     from props.common import run_bounded, discharge_parallel
+    import contracts.dispatch as cdis
+    cdis.discharge(rep, kf, "C14", tier, seed)
     import contracts.model_plumbing as cmp_
     from pyvc import engine_b as _eb
     _eb.discharge(rep, kf, [cmp_.const_build_contract()], "C14", tier, seed)
